@@ -4,3 +4,8 @@ pub mod entropy;
 pub mod rng;
 pub mod headers;
 pub mod hgen;
+pub mod modmodel;
+pub mod modular;
+pub mod icc;
+pub mod codestream;
+pub mod imggen;
